@@ -36,6 +36,13 @@ def transforms(p, rng, extracted, avoid=()):
         # field renaming that reverses the alphabetical order of the fields (their storage order changes, the meaning must not)
         fr = {f: "z%02d_" % (len(fields) - i) + f for i, f in enumerate(fields)}
         out.append(("rename:fields", coregen.Knobs(fieldrename=fr)))
+    # a local variable renamed to an OUTER name that its scope does not use (its own function, another function, a global,
+    # a parameter): legal shadowing, capture-free; the right-hand side still means the outer binding
+    sh = coregen.shadow_renames(p)
+    own = [t for t in sh if t[1] == t[2]]
+    picks = ([own[rng.below(len(own))]] if own else []) + [sh[rng.below(len(sh))] for _ in range(2) if sh]
+    for j, (x, y, fn) in enumerate(picks):
+        out.append((f"rename:shadow{j}", coregen.Knobs(rename={x: y})))
     out.append(("parens", coregen.Knobs(parens=True)))
     out.append(("layout", coregen.Knobs(comments=True, newline_in_brackets=True)))
     out.append(("annotate", coregen.Knobs(annotate=True)))
@@ -47,7 +54,7 @@ def transforms(p, rng, extracted, avoid=()):
 
 def main(ctx, args):
     ctx.assumptions += [
-        "transformations are applied by the generator's renderer to one AST (rename map, redundant parentheses around every binary expression, comments/blank lines/line breaks inside brackets, type annotations equal to the types the generator knows)",
+        "transformations are applied by the generator's renderer to one AST (injective rename maps, capture-free shadowing renamings of one local, redundant parentheses around every binary expression, comments/blank lines/line breaks inside brackets, type annotations equal to the types the generator knows)",
         "reference = the untransformed program on the same backend (VM) and the Lean reference semantics",
     ]
     known = load_known("C16")
@@ -69,7 +76,9 @@ def main(ctx, args):
                  dict(id="orig|replayed-transform", src=r["src"], sx=None, inputs=r.get("inputs", []), times=r.get("times", 12))]
         meta["orig|replayed-transform"] = ("orig", r.get("transform", "?"))
     else:
-        progs, _ = pc.gen_cases(ctx.seed, nprog, "core", times)
+        progs, _ = pc.gen_cases(ctx.seed, nprog * 2 // 3, "core", times)
+        progs2, _ = pc.gen_cases(ctx.seed, nprog - nprog * 2 // 3, "rec", times, start=nprog)
+        progs += progs2
         for pr in progs:
             cases.append(pr)
             for tname, kn in transforms(pr["prog"], rng, extracted, [k["avoid_name_pattern"] for k in known if "avoid_name_pattern" in k]):
@@ -117,7 +126,7 @@ def main(ctx, args):
     ctx.coverage.update({
         "evaluations": stats["evaluations"],
         "distinct_nontrivial": len(nontriv),
-        "rule": "each generated core program x 8 transformations (4 renaming pools incl. compiler-generated-looking, underscore and Unicode names; redundant parentheses; comments/blank lines/line breaks in brackets; agreeing annotations; all together): accept/reject class and every output sample must equal those of the untransformed program; non-trivial = output not constant over time",
+        "rule": "each generated core program (a third with a self-recursive function) x up to 11 transformations (4 renaming pools incl. compiler-generated-looking, underscore and Unicode names; up to 3 shadowing renamings: a let-bound local takes the name of its own function / another function / a global / a parameter that its scope does not use; redundant parentheses; comments/blank lines/line breaks in brackets; agreeing annotations; all together): accept/reject class and every output sample must equal those of the untransformed program; non-trivial = output not constant over time",
         "samples": samples or [{"note": "replay mode"}],
         "traces_validated_against_impl": stats["evaluations"],
         "failures": len(failures),
